@@ -41,12 +41,19 @@ type c11store struct {
 	kind  string
 	start c11state
 	fail  bool // the first WriteState returns an error (the store is down)
+	lazy  bool // keeps the event slice it is handed instead of copying it
 	calls int
 }
 
 func (s *c11store) ReadState(*http.Request) (authboss.ClientState, error) { return s.start, nil }
 func (s *c11store) WriteState(w http.ResponseWriter, st authboss.ClientState, evs []authboss.ClientStateEvent) error {
-	s.l.add(s.kind, "", append([]authboss.ClientStateEvent(nil), evs...))
+	if s.lazy {
+		// a write-behind store: it keeps the slice it was handed and applies it after the request — what
+		// it was handed is what it must still hold then
+		s.l.add(s.kind, "", evs)
+	} else {
+		s.l.add(s.kind, "", append([]authboss.ClientStateEvent(nil), evs...))
+	}
 	s.calls++
 	if s.fail && s.calls == 1 {
 		return errStoreDown
@@ -161,6 +168,10 @@ func c11run(prog []c11op, sessStart, cookStart c11state, failS, failC bool) (*c1
 	ab.Config.Storage.CookieState = &c11store{l: l, kind: "cookWrite", start: cookStart, fail: failC}
 	var gets []c11get
 	nested := len(prog) > 0 && prog[0].Op == "nested"
+	if len(prog) > 0 && prog[0].Op == "lazy" {
+		ab.Config.Storage.SessionState.(*c11store).lazy = true
+		ab.Config.Storage.CookieState.(*c11store).lazy = true
+	}
 	h := ab.LoadClientStateMiddleware(http.HandlerFunc(func(w http.ResponseWriter, r *http.Request) {
 		for _, o := range prog {
 			switch o.Op {
@@ -375,9 +386,13 @@ func c11Unit(c *RunCtx, unit int) {
 	c.Stats.Histories++
 	for i := 0; i < n; i++ {
 		prog := c11gen(r)
-		if r.Intn(5) == 0 {
+		switch r.Intn(5) {
+		case 0:
 			prog = append([]c11op{{Op: "nested"}}, prog...) // run behind a second instance's middleware
 			c.Stats.Count("programs-nested-in-another-instance")
+		case 1:
+			prog = append([]c11op{{Op: "lazy"}}, prog...) // stores that keep the slice they are handed
+			c.Stats.Count("programs-with-write-behind-stores")
 		}
 		ss, cs := c11state{}, c11state{}
 		for _, k := range c11keys {
@@ -459,7 +474,7 @@ func min(a, b int) int {
 func init() {
 	register(&Check{
 		ID: "C11", Level: "exploration",
-		Rule:  "random handler programs (0-25 operations over putS/delS/delAllS/putC/delC/getS/getC/WriteHeader (final codes, 100/103 informational, 101)/Write/io.Copy (the base writer implements io.ReaderFrom like net/http's) and nesting the writer in wrappers exposing UnderlyingResponseWriter() or Unwrap(), depth <= 4; one program in five runs directly inside a second Authboss instance's LoadClientStateMiddleware, whose stores must receive nothing; in 1/6 of the programs one of the stores fails its first WriteState and the handler recovers and carries on) executed by a handler behind the real LoadClientStateMiddleware with two recording stores and a recording base writer sharing one sequence counter. Offline checker over the log: each store receives <= 1 delivery, exactly the operations made for it before the first write, same order/keys/values, never the other store's; every delivery precedes the first header or body byte released to the base writer; operations after the first write are never delivered; every read returns the request-start value whatever was put earlier. distinct_nontrivial = distinct program shapes (#ops, #ops before first write, #writes, wrapper depth, kind of first write).",
+		Rule:  "random handler programs (0-25 operations over putS/delS/delAllS/putC/delC/getS/getC/WriteHeader (final codes, 100/103 informational, 101)/Write/io.Copy (the base writer implements io.ReaderFrom like net/http's) and nesting the writer in wrappers exposing UnderlyingResponseWriter() or Unwrap(), depth <= 4; one program in five runs directly inside a second Authboss instance's LoadClientStateMiddleware, whose stores must receive nothing; one in five uses write-behind stores that keep the event slice they are handed (what they hold at the end of the request is what was delivered); in 1/6 of the programs one of the stores fails its first WriteState and the handler recovers and carries on) executed by a handler behind the real LoadClientStateMiddleware with two recording stores and a recording base writer sharing one sequence counter. Offline checker over the log: each store receives <= 1 delivery, exactly the operations made for it before the first write, same order/keys/values, never the other store's; every delivery precedes the first header or body byte released to the base writer; operations after the first write are never delivered; every read returns the request-start value whatever was put earlier. distinct_nontrivial = distinct program shapes (#ops, #ops before first write, #writes, wrapper depth, kind of first write).",
 		Units: func(t string) int { return tierN(t, 64, 256) },
 		Run:   c11Unit,
 		Floors: func(t string) map[string]int {
